@@ -50,6 +50,7 @@ class Case:
         self.guards = []
         self.uses_hash = False
         self.uses_abstraction = False
+        self.uses_exp = False
         n = ch.int(1, 4, "c.nguards")
         for i in range(n):
             self.guards.append(self._guard(f"c.g{i}"))
@@ -77,7 +78,9 @@ class Case:
         w = self.w
         i = ch.pick(self.nstatic, lbl + ".i")
         j = ch.pick(self.nstatic, lbl + ".j")
-        kinds = ["eq", "lt", "gt", "addeq", "and", "muleq", "diveq", "modeq", "xor", "slt"]
+        kinds = ["eq", "lt", "gt", "addeq", "and", "muleq", "diveq", "modeq", "xor", "slt"] * 3
+        # two-operand division / modular forms are costly for the real solver (wall-clock limited): kept rarer
+        kinds += ["mod2", "smod2", "sdiv2", "addmod3", "mulmod3", "exp2"]
         if self.nstatic >= 2:
             kinds += ["mul2", "div2", "lt2"]
         kinds += ["hasheq"]
@@ -126,6 +129,31 @@ class Case:
         if k == "div2":
             self.uses_abstraction = True
             return ("div2", i, j, 0 if w[j] == 0 else w[i] // w[j])
+        if k in ("mod2", "smod2", "sdiv2"):
+            self.uses_abstraction = True
+            x, y = (w[i] + 7) & M256, w[j]
+            if k == "mod2":
+                r = 0 if y == 0 else x % y
+            else:
+                sx, sy = s256(x), s256(y)
+                if sy == 0:
+                    r = 0
+                elif k == "smod2":
+                    r = (abs(sx) % abs(sy)) * (-1 if sx < 0 else 1) & M256
+                else:
+                    q = abs(sx) // abs(sy)
+                    r = (q if (sx < 0) == (sy < 0) else -q) & M256
+            return (k, i, j, r)
+        if k in ("addmod3", "mulmod3"):
+            self.uses_abstraction = True
+            x, y, m = w[i], (w[j] + 3) & M256, w[(i + 1) % self.nstatic]
+            r = 0 if m == 0 else ((x + y) % m if k == "addmod3" else (x * y) % m)
+            return (k, i, j, (i + 1) % self.nstatic, r)
+        if k == "exp2":
+            self.uses_abstraction = True
+            self.uses_exp = True
+            e = w[j] & 0xFF
+            return ("exp2", i, j, pow(w[i], e, 1 << 256))
         if k == "lt2":
             return ("lt2", i, j) if w[i] < w[j] else ("ge2", i, j)
         if k == "hasheq":
@@ -145,11 +173,12 @@ class Case:
     def _contradiction(self, lbl):
         ch = self.ch
         i = ch.pick(self.nstatic, lbl + ".i")
-        k = ch.choose(["eq2", "parity", "range", "mulparity", "lenbad"] if self.has_bytes else ["eq2", "parity", "range", "mulparity"],
-                      lbl + ".k")
-        if k == "mulparity":
+        base = ["eq2", "parity", "range", "mulparity", "divzero", "modzero", "smodzero", "sdivzero", "addmodzero", "mulmodzero"]
+        k = ch.choose(base + (["lenbad"] if self.has_bytes else []), lbl + ".k")
+        if k in ("mulparity", "divzero", "modzero", "smodzero", "sdivzero", "addmodzero", "mulmodzero"):
             self.uses_abstraction = True
-        return ("contra_" + k, i, self.w[i])
+        j = ch.pick(self.nstatic, lbl + ".j")
+        return ("contra_" + k, i, self.w[i], j)
 
     # ---- code
     def _arg(self, a, i):
@@ -194,6 +223,17 @@ class Case:
             self._arg(a, g[2]); self._arg(a, g[1]); a.op("MUL"); a.push(g[3]); cmp_jump("EQ")
         elif k == "div2":
             self._arg(a, g[2]); self._arg(a, g[1]); a.op("DIV"); a.push(g[3]); cmp_jump("EQ")
+        elif k in ("mod2", "smod2", "sdiv2"):
+            # (arg_i + 7) OP arg_j == r
+            self._arg(a, g[2]); a.push(7); self._arg(a, g[1]); a.op("ADD")
+            a.op({"mod2": "MOD", "smod2": "SMOD", "sdiv2": "SDIV"}[k]); a.push(g[3]); cmp_jump("EQ")
+        elif k in ("addmod3", "mulmod3"):
+            # OPMOD(arg_i, arg_j + 3, arg_m) == r
+            self._arg(a, g[3]); a.push(3); self._arg(a, g[2]); a.op("ADD"); self._arg(a, g[1])
+            a.op("ADDMOD" if k == "addmod3" else "MULMOD"); a.push(g[4]); cmp_jump("EQ")
+        elif k == "exp2":
+            # arg_i ** (arg_j & 0xff) == c
+            a.push(0xFF); self._arg(a, g[2]); a.op("AND"); self._arg(a, g[1]); a.op("EXP"); a.push(g[3]); cmp_jump("EQ")
         elif k == "lt2":
             self._arg(a, g[2]); self._arg(a, g[1]); cmp_jump("LT")
         elif k == "ge2":
@@ -220,6 +260,22 @@ class Case:
         elif k == "contra_mulparity":
             # x * 2 == odd constant: impossible also modulo 2^256
             a.push(2); self._arg(a, g[1]); a.op("MUL"); a.push(0x1235); cmp_jump("EQ")
+        elif k in ("contra_divzero", "contra_modzero", "contra_smodzero", "contra_sdivzero"):
+            # arg_j == 0  and  (arg_i + 7) OP arg_j == 7: on the EVM anything divided by / modulo zero is 0
+            self._arg(a, g[3]); a.push(0); cmp_jump("EQ")
+            self._arg(a, g[3]); a.push(7); self._arg(a, g[1]); a.op("ADD")
+            a.op({"contra_divzero": "DIV", "contra_modzero": "MOD", "contra_smodzero": "SMOD", "contra_sdivzero": "SDIV"}[k])
+            a.push(7); cmp_jump("EQ")
+        elif k in ("contra_addmodzero", "contra_mulmodzero"):
+            # arg_j == 0  and  OPMOD(arg_i, 1, arg_j) == arg_i  and  arg_i == 5
+            self._arg(a, g[3]); a.push(0); cmp_jump("EQ")
+            if g[3] != g[1]:
+                self._arg(a, g[1]); a.push(5); cmp_jump("EQ")
+                self._arg(a, g[3]); a.push(1); self._arg(a, g[1])
+                a.op("ADDMOD" if k == "contra_addmodzero" else "MULMOD"); a.push(6 if k == "contra_addmodzero" else 5); cmp_jump("EQ")
+            else:
+                self._arg(a, g[3]); a.push(1); a.push(5)
+                a.op("ADDMOD" if k == "contra_addmodzero" else "MULMOD"); a.push(6 if k == "contra_addmodzero" else 5); cmp_jump("EQ")
         elif k == "contra_lenbad":
             a.push(self._bytes_base()).op("CALLDATALOAD"); a.push(7); cmp_jump("EQ")  # 7 is not a configured length
         else:
@@ -391,7 +447,7 @@ class C03Check:
         import halmos.__main__ as hm
 
         faulted = ch.chance(0.35, "sw.faulted")
-        solver = ch.choose(["yices", "z3"], "sw.solver")
+        solver = ch.choose(["yices", "yices", "yices", "yices", "z3"], "sw.solver")
         layout = ch.choose(["solidity", "generic"], "sw.layout")
         threads = ch.choose([1, 2, 4], "sw.threads")
         cache = ch.chance(0.3, "sw.cache")
@@ -443,14 +499,14 @@ class C03Check:
                     detail=f"[PASS] although {case.sig} with args {[hex(x) for x in case.w]} (bytes len {case.wlen}) ends in an assertion "
                            f"failure on the reference EVM; guards {case.guards}; leaf {case.leaf}; faults {out.sim.fault_counts}; "
                            f"queries {[(h['file'], h['kind'], h['truth']) for h in out.stub.history]}"))
-            if not faulted and verdict != "PASS" and not case.reachable and has_success and not self._stuck_ok(out):
+            if not faulted and verdict != "PASS" and not case.reachable and has_success and not case.uses_exp:
                 violations.append(dict(
                     oracle="C03:faultfree-verdict-mismatch", disc=f"{verdict}-for-unreachable",
                     detail=f"[{verdict}] for a test whose failure leaf is guarded by a contradiction ({case.guards}); "
                            f"models {[str(m) for m in (res0.models or [])][:2]}; warnings {out.warnings[-3:]}"))
             truth_unknown = any(h["truth"] == "unknown" for h in out.stub.history)
             if not faulted and verdict not in ("FAIL",) and case.reachable and verdict != "PASS" and not (
-                    verdict == "TIMEOUT" and truth_unknown):
+                    verdict == "TIMEOUT" and truth_unknown) and not case.uses_exp:
                 violations.append(dict(
                     oracle="C03:faultfree-verdict-mismatch", disc=f"{verdict}-for-reachable",
                     detail=f"[{verdict}] instead of FAIL for a reachable failure; guards {case.guards}; warnings {out.warnings[-3:]}; "
